@@ -260,7 +260,7 @@ PROPS = {
         'steps': [{'script': 'corr_graph.py', 'timeout': 1500, 'timeout_thorough': 6000},
                   {'script': 'corr_plan.py', 'timeout': 1500, 'timeout_thorough': 6000},
                   {'script': 'oracle_c19.py', 'timeout': 1500, 'timeout_thorough': 6000}],
-        'required_theorems': ['C19_instructions_are_generated_per_subgraph', 'C19_generated_and_transformed_as_if_alone', 'C19_step_is_local_to_its_subgraph', 'C19_opcode_table_only_grows',
+        'required_theorems': ['C19_plan_of_a_subgraph_is_its_stand_alone_plan', 'C19_all_stages_as_if_the_subgraph_stood_alone', 'C19_instructions_are_generated_per_subgraph', 'C19_generated_and_transformed_as_if_alone', 'C19_step_is_local_to_its_subgraph', 'C19_opcode_table_only_grows',
                               'C19_tensor_info_is_per_subgraph',
                               'C19_result_depends_on_own_instructions_only',
                               'C19_subgraph_transformed_as_if_it_stood_alone',
@@ -276,7 +276,7 @@ PROPS = {
             'tensor names are unique model-wide (params_generator rejects the model otherwise; C19_unique_names_needed shows the map is not per-subgraph without it)',
             'constants shared between subgraphs with conflicting uses are rejected (C15/C08 F17-F18); those cases are counted and skipped',
             'whole performer runs ARE a theorem (simulation, Proofs/AloneProofs.v): subgraph k of transform_graph(m, tis) equals, up to the index an operator code has in the opcode table, subgraph 0 of transform_graph(model consisting of k alone, k\'s instructions); its hypotheses (opcode indices in range, instruction subgraph ids >= 0) are evaluated in Coq on every generated input',
-            'locality of plan generation across subgraphs (global result dict keyed by name) is tied by correspondence P on multi-subgraph models and by the oracle, not proved'],
+            'plan generation, instruction generation and graph transformation are each PROVED per subgraph and composed (C19_all_stages_as_if_the_subgraph_stood_alone) under model-wide unique names and one parameter classification for both sides; the cross-subgraph buffer-sharing check between the stages is C15\'s and is covered by correspondence P/E2 and the oracle only'],
     },
     'C14': {
         'steps': [{'script': 'corr_plan.py', 'timeout': 1500, 'timeout_thorough': 6000},
